@@ -6,6 +6,8 @@ Thin static rules (DESIGN.md §C20); that the output *is* the DFT is not decidab
                every libfft call, and the output buffer is allocated with self._outshape
  ffi           the libfft call sites of fft_plan.py conform to the C prototypes; restype is set for
                every pointer-returning function whose result is used
+ layout        frozen C layout table: stride/idist/odist per batch_first; write_fft_input and
+               read_fft_output use the same padded row variables, row length 2*(dm1/2+1)*nt, mirrored copies
  shape-table   _inshape/_outshape for the 8 combinations of (r2c, batch_first, fwd) equal the frozen
                decision table (r2c halves only the last axis, batch axis first/last, fwd/bwd swap), and
                the table agrees with the branches of allocate_fftnd_plan (fft_in_size / fft_out_size)
@@ -46,6 +48,24 @@ def rule_shape_guard(chk, eng, mod):
         sides = {pf.src(t.left), pf.src(t.comparators[0])}
         return sides == {"%s.shape" % x, "self._inshape"}
 
+    guard_ids = [nd.id for nd in g.nodes if nd.ast is not None and is_guard(nd)]
+    inst0 = "FFTWrapper.call: the shape test sees the array as passed (parameter %s not re-bound before it)" % x
+    rebinds = []
+    for nd in g.nodes:
+        a = nd.ast
+        if a is None or nd.id in guard_ids:
+            continue
+        stores = [n for n in (ast.walk(a) if nd.kind == "stmt" else ast.walk(getattr(a, "target", ast.Pass())))
+                  if isinstance(n, ast.Name) and n.id == x and isinstance(n.ctx, ast.Store)]
+        if stores and any(gid in g.reachable(nd.id) for gid in guard_ids):
+            rebinds.append(a)
+    if guard_ids and not rebinds:
+        chk.ok("shape-guard", inst0)
+    elif guard_ids:
+        chk.violation("shape-guard", FP, "FFTWrapper.call", "parameter %s re-bound before the shape test" % x,
+                      rebinds[0].lineno, "`%s` assigns %s before `if %s.shape != self._inshape`: the test no longer "
+                      "sees the shape the caller passed, so a wrongly shaped input can be accepted"
+                      % (pf.src(rebinds[0])[:80], x, x), instance=inst0)
     sites = [s for s in eng.sites if s.rel == FP and s.func == "FFTWrapper.call"]
     if len(sites) < 3:
         raise core.AnalysisError("FFTWrapper.call makes %d libfft call(s); 3 expected (write/execute/read)" % len(sites))
@@ -220,6 +240,13 @@ def c_size_table(tu):
     return table
 
 
+def body_of(tu):
+    b = tu.body("allocate_fftnd_plan")
+    if b is None:
+        raise core.AnalysisError("allocate_fftnd_plan has no body")
+    return b
+
+
 def rule_shape_table(chk, tree, mod):
     init = mod.func("FFTWrapper.__init__")
     pnames = [a.arg for a in init.args.args[1:]]
@@ -258,22 +285,53 @@ def rule_shape_table(chk, tree, mod):
                           tu.line_of(tu.func("allocate_fftnd_plan")),
                           "the C plan uses in=%s out=%s where the Python shapes (and the frozen table) need in=%s "
                           "out=%s" % (ent.get("fft_in_size"), ent.get("fft_out_size"), wi, wo), instance=inst)
-    text = tu.text_of(tu.func("allocate_fftnd_plan"))
-    norm = re.sub(r"\s+", "", text)
-    checks = [
-        ("recip_dist=dims[ndim-1]/2+1;", "reciprocal size starts from dims[ndim-1]/2+1 (only the last axis is halved)"),
-        ("for(inti=0;i<ndim-1;i++){recip_dist*=dims[i];}", "reciprocal size multiplies the other ndim-1 axes unhalved"),
-        ("real_dist=1;for(inti=0;i<ndim;i++){real_dist*=dims[i];}", "out-of-place real size is the product of all dims"),
-        ("size_tdist=1;for(inti=0;i<ndim;i++){dist*=dims[i];}", "complex size is the product of all dims"),
+    fdecl = tu.func("allocate_fftnd_plan")
+    fline = tu.line_of(fdecl)
+    # size definitions, resolved through the AST (loop variable names / types do not matter)
+    inits, loops = {}, {}
+    for n in cfacts.walk(body_of(tu)):
+        if n.get("kind") == "BinaryOperator" and n.get("opcode") == "=":
+            k = cfacts.kids(n)
+            lhs = re.sub(r"\s+", "", tu.text_of(k[0]))
+            if lhs in ("recip_dist", "real_dist", "dist"):
+                inits.setdefault(lhs, []).append(re.sub(r"\s+", "", tu.text_of(cfacts.strip(k[1]))))
+        if n.get("kind") == "VarDecl" and n.get("name") in ("recip_dist", "real_dist", "dist") and cfacts.kids(n):
+            inits.setdefault(n["name"], []).append(re.sub(r"\s+", "", tu.text_of(cfacts.strip(cfacts.kids(n)[0]))))
+        if n.get("kind") == "ForStmt":
+            k = [c for c in (n.get("inner") or []) if isinstance(c, dict)]
+            var = None
+            for x in cfacts.walk(n):
+                if x.get("kind") == "VarDecl":
+                    var = x.get("name")
+                    break
+            if var is None or len(k) < 5:
+                continue
+            cond = re.sub(r"\s+", "", tu.text_of(k[2])) if k[2].get("kind") else ""
+            for x in cfacts.walk(k[-1]):
+                if x.get("kind") == "CompoundAssignOperator" and x.get("opcode") == "*=":
+                    kk = cfacts.kids(x)
+                    acc = re.sub(r"\s+", "", tu.text_of(kk[0]))
+                    rhs = re.sub(r"\s+", "", tu.text_of(cfacts.strip(kk[1])))
+                    loops.setdefault(acc, []).append((re.sub(r"\b%s\b" % re.escape(var), "$", cond),
+                                                      re.sub(r"\b%s\b" % re.escape(var), "$", rhs)))
+    want_defs = [
+        ("recip_dist", "init", "dims[ndim-1]/2+1", "reciprocal size starts from dims[ndim-1]/2+1 (only the last axis is halved)"),
+        ("recip_dist", "loop", ("$<ndim-1", "dims[$]"), "reciprocal size multiplies the other ndim-1 axes unhalved"),
+        ("real_dist", "loop", ("$<ndim", "dims[$]"), "out-of-place real size is the product of all dims"),
+        ("dist", "loop", ("$<ndim", "dims[$]"), "complex size is the product of all dims"),
     ]
-    for pat, what in checks:
+    for acc, kind, want, what in want_defs:
         inst = "allocate_fftnd_plan: " + what
-        if pat in norm:
+        have = inits.get(acc, []) if kind == "init" else loops.get(acc, [])
+        if not have:
+            raise core.AnalysisError("allocate_fftnd_plan: no %s of `%s` found (the size computation was restructured)"
+                                     % ("assignment" if kind == "init" else "product loop", acc))
+        if want in have:
             chk.ok("shape-table", inst)
         else:
-            chk.violation("shape-table", CFULL, "allocate_fftnd_plan", what, tu.line_of(tu.func("allocate_fftnd_plan")),
-                          "the statement pattern `%s` (whitespace-insensitive) is no longer present: %s does not "
-                          "hold in the form the Python shape table was frozen against" % (pat, what), instance=inst)
+            chk.violation("shape-table", CFULL, "allocate_fftnd_plan", what, fline,
+                          "`%s` is %s %s; the Python shape table needs %s: %s"
+                          % (acc, "assigned" if kind == "init" else "accumulated by", have, want, what), instance=inst)
     # element types: python allocates float64 output iff (r2c and not fwd); C copies doubles on the same condition
     call = mod.func("FFTWrapper.call")
     dt = [n for n in pf.walk_no_nested(call) if isinstance(n, ast.Assign) and len(n.targets) == 1
@@ -294,6 +352,101 @@ def rule_shape_table(chk, tree, mod):
                       "copies doubles (r2c backward), complex otherwise"
                       % ("ok" if ok_py else "changed: " + (pf.src(dt[0].value) if dt else "no dtype assignment"),
                          "ok" if ok_c else "condition of the real branch changed"), instance=inst)
+
+
+def _norm(t):
+    return re.sub(r"\s+", "", t)
+
+
+def _var_inits(tu, fname, names):
+    out = {}
+    for n in cfacts.walk(tu.body(fname)):
+        if n.get("kind") == "VarDecl" and n.get("name") in names and cfacts.kids(n):
+            out.setdefault(n["name"], []).append(_norm(tu.text_of(cfacts.strip(cfacts.kids(n)[0]))))
+    return out
+
+
+def _assign_texts(tu, node):
+    out = []
+    for n in cfacts.walk(node):
+        if n.get("kind") == "BinaryOperator" and n.get("opcode") == "=":
+            k = cfacts.kids(n)
+            out.append((_norm(tu.text_of(k[0])), _norm(tu.text_of(cfacts.strip(k[1])))))
+    return out
+
+
+def rule_layout(chk, tree):
+    """frozen layout table of the C plan: batch stride/dist selection, and the padded in-place real rows that
+    write_fft_input and read_fft_output must agree on (2 * reciprocal last-axis length doubles per row)"""
+    tu = cfacts.TU(tree, CF)
+    fline = tu.line_of(tu.func("allocate_fftnd_plan"))
+    got = {}
+    for n in cfacts.walk(body_of(tu)):
+        if n.get("kind") == "IfStmt":
+            k = cfacts.kids(n)
+            c = cfacts.strip(k[0])
+            if c.get("kind") == "DeclRefExpr" and c["referencedDecl"]["name"] == "batch_first" and len(k) > 2:
+                got[True] = dict(_assign_texts(tu, k[1]))
+                got[False] = dict(_assign_texts(tu, k[2]))
+    if not got:
+        raise core.AnalysisError("allocate_fftnd_plan: no `if (batch_first) ... else ...` selecting stride/idist/odist")
+    want = {True: {"stride": "1", "idist": "plan->fft_in_size", "odist": "plan->fft_out_size"},
+            False: {"stride": "ntransform", "idist": "1", "odist": "1"}}
+    for bf in (True, False):
+        for var, w in sorted(want[bf].items()):
+            inst = "allocate_fftnd_plan: %s for batch_first=%s" % (var, bf)
+            h = got[bf].get(var)
+            if h == w:
+                chk.ok("layout", inst)
+            else:
+                chk.violation("layout", CFULL, "allocate_fftnd_plan", "%s (batch_first=%s)" % (var, bf), fline,
+                              "%s = %s; with the batch index %s, consecutive transforms are %s apart and elements "
+                              "%s apart, i.e. %s = %s" % (var, h, "first" if bf else "last",
+                                                         "fft_in_size/fft_out_size" if bf else "1",
+                                                         "1" if bf else "ntransform", var, w), instance=inst)
+    # padded rows
+    names = ("nt", "dm1", "last_dim", "last_dim1", "blksize")
+    wi, ri = _var_inits(tu, "write_fft_input", names), _var_inits(tu, "read_fft_output", names)
+    recip = None
+    for n in cfacts.walk(body_of(tu)):
+        if n.get("kind") == "BinaryOperator" and n.get("opcode") == "=" and _norm(tu.text_of(cfacts.kids(n)[0])) == "recip_dist":
+            recip = _norm(tu.text_of(cfacts.strip(cfacts.kids(n)[1])))
+            break
+    if recip is None or not all(nm in wi and nm in ri for nm in names):
+        raise core.AnalysisError("write_fft_input/read_fft_output no longer declare %s (padded in-place layout was "
+                                 "restructured)" % ", ".join(names))
+    for nm in names:
+        inst = "write_fft_input / read_fft_output agree on `%s`" % nm
+        if wi[nm] == ri[nm]:
+            chk.ok("layout", inst)
+        else:
+            chk.violation("layout", CFULL, "read_fft_output", "padded-row variable %s" % nm,
+                          tu.line_of(tu.func("read_fft_output")),
+                          "write_fft_input computes %s = %s but read_fft_output computes %s = %s: the two copies "
+                          "address different rows of the same in-place buffer" % (nm, wi[nm], nm, ri[nm]), instance=inst)
+    want_pad = "2*(%s)*nt" % recip.replace("dims[ndim-1]", "dm1")
+    for fname, inits in (("write_fft_input", wi), ("read_fft_output", ri)):
+        inst = "%s: padded row length is 2 x reciprocal last axis" % fname
+        if inits["last_dim1"] == [want_pad] and inits["dm1"] == ["plan->dims[plan->ndim-1]"]:
+            chk.ok("layout", inst)
+        else:
+            chk.violation("layout", CFULL, fname, "last_dim1", tu.line_of(tu.func(fname)),
+                          "last_dim1 = %s with dm1 = %s; the in-place real buffer has 2*(%s) doubles per row "
+                          "(allocate_fftnd_plan: real_dist = recip_dist * 2), i.e. %s"
+                          % (inits["last_dim1"], inits["dm1"], recip, want_pad), instance=inst)
+    # the copy statements mirror each other
+    def copies(fname):
+        return [(l, r) for l, r in _assign_texts(tu, tu.body(fname)) if l.startswith("dst[") and "last_dim" in l + r]
+    wc, rc = copies("write_fft_input"), copies("read_fft_output")
+    inst = "padded copies mirror each other (write: padded <- dense, read: dense <- padded)"
+    if wc == [("dst[i*last_dim1+j]", "src[i*last_dim+j]")] and rc == [("dst[i*last_dim+j]", "src[i*last_dim1+j]")]:
+        chk.ok("layout", inst)
+    elif not wc or not rc:
+        raise core.AnalysisError("padded copy statements not found in write_fft_input/read_fft_output")
+    else:
+        chk.violation("layout", CFULL, "write_fft_input", "padded copy statements", tu.line_of(tu.func("write_fft_input")),
+                      "write copies %s, read copies %s; expected dst[i*last_dim1+j] = src[i*last_dim+j] and its mirror"
+                      % (wc, rc), instance=inst)
 
 
 # ----------------------------------------------------------------------------
@@ -332,12 +485,16 @@ def analyse(chk):
     if "eng" in box:
         chk.guard(rule_shape_guard, box["eng"], mod)
     chk.guard(rule_shape_table, tree, mod)
+    chk.rule("layout", "frozen C layout table: batch stride/dist selection; write/read agree on the padded in-place rows")
+    chk.guard(rule_layout, tree)
+    chk.floor("layout", 14, "6 stride/dist rows + 5 shared variables + 2 pad lengths + copy mirror")
     chk.floor("ffi", 10, "10 libfft call sites in fft_plan.py")
-    chk.floor("shape-guard", 4, "3 native calls + output allocation")
+    chk.floor("shape-guard", 5, "3 native calls + output allocation + parameter not re-bound")
     chk.floor("shape-table", 17, "8 flag combinations + 4 C branch rows + 4 size definitions + dtype")
     chk.assumptions += ["x86-64 System V calling convention", "dims has at least one axis; symbolic 3-axis dims stand "
                         "for any rank (the construction never indexes an axis other than the last)"]
-    chk.not_decided += ["that the transform computed is the DFT", "padded in-place real layout arithmetic",
+    chk.not_decided += ["that the transform computed is the DFT",
+                        "padded in-place real layout arithmetic beyond write/read agreement and the row length",
                         "input dtype / contiguity (call() does not test them)", "MPI plan (mpi_fft_plan.py)"]
 
 
@@ -385,6 +542,16 @@ def mutants(tree):
                expect="shape-table"),
         Mutant("output dtype real for every r2c plan", FP, "np.float64 if (self._r2c and not self._fwd) else",
                "np.float64 if self._r2c else", expect="shape-table"),
+        Mutant("input reshaped before the shape test", FP, "    def call(self, x):\n",
+               "    def call(self, x):\n        x = x.reshape(self._inshape)\n", expect="shape-guard"),
+        Mutant("C: read_fft_output uses another padded row length", CFULL,
+               "            const size_t last_dim1 = 2 * (dm1 / 2 + 1) * nt;", "            const size_t last_dim1 = (dm1 + 2) * nt;",
+               count=2, expect="layout"),
+        Mutant("C: both copies use dm1 + 2", CFULL, "const size_t last_dim1 = 2 * (dm1 / 2 + 1) * nt;",
+               "const size_t last_dim1 = (dm1 + 2) * nt;", count=1, expect="layout"),
+        Mutant("C: odist follows idist for in-place plans", CFULL, "        odist = plan->fft_out_size;",
+               "        odist = inplace ? idist : plan->fft_out_size;", expect="layout"),
+        Mutant("C: batch-last stride is 1", CFULL, "        stride = ntransform;", "        stride = 1;", expect="layout"),
         Mutant("C: prototype of write_fft_input gains a size argument", CFULL,
                "void write_fft_input(fft_plan_t *plan, void *input) {", "void write_fft_input(fft_plan_t *plan, size_t n, void *input) {",
                expect="ffi"),
